@@ -27,16 +27,60 @@ THEOREMS = [
     "PorepyVerif.C26.avg_rowsum_one_comp",
     "PorepyVerif.C26.int_colsum_one_comp",
     "PorepyVerif.C26.transpose_pairs",
+    "PorepyVerif.C26.transpose_pairs_run",
+    "PorepyVerif.C26.transpose_entries",
+    "PorepyVerif.C26.transposed_sums",
+    "PorepyVerif.C26.stack_update_mortar",
+    "PorepyVerif.C26.stack_update_secondary",
+    "PorepyVerif.C26.stack_update_primary",
+    "PorepyVerif.C26.sideInv_step",
+    "PorepyVerif.C26.side_history_invariant",
+    "PorepyVerif.C26.mortar_update_valid",
+    "PorepyVerif.C26.identity_update_valid",
+    "PorepyVerif.C26.secondary_update_valid",
+    "PorepyVerif.C26.matching_init_sideInv",
 ]
 LEAN_MODULES = ["PorepyVerif.C26.Props"]
 AUDIT = "PorepyVerif/C26/Audit.lean"
 DRIVER = "PorepyVerif/C26/Driver.lean"
-N = {"quick": 60, "thorough": 900}
-DISABLED = True
-RULE = ""
-TRUSTED = []
-EXPLANATION = ""
-ASSUMPTIONS = []
+N = {"quick": 40, "thorough": 700}
+RULE = ("half the cases: a MortarGrid built directly on a straight segment of arbitrary direction (1 or 2 sides, initial grid uniform or with "
+        "random rational nodes, either node orientation, random primary_secondary map with extra uncovered faces, with or without "
+        "face_duplicate_ind, 8% malformed maps) followed by 1-4 (thorough 1-7) update_mortar (one side, both sides with different or equal "
+        "new grids) / update_secondary calls with uniform ratios 1-6 or random rational node sets; other half: Cartesian 2-D host "
+        "(pp.meshing.cart_grid, 12x4 domain, 2-12 by 2-4 cells, transposed in a third of the cases) with 1-2 axis-aligned fractures "
+        "(interior, touching the boundary, full width) followed by 1-4 (thorough 1-6) MixedDimensionalGrid.replace_subdomains_and_interfaces "
+        "calls replacing mortar side grids (35%), the fracture grid (25%; refine_grid_1d ratio 2-4 or random nodes) or the 2-D host (40%; "
+        "other nested or non-nested resolution, fracture nodes shifted along the fracture by up to 3/8 cell); thorough adds 6% MortarGrids "
+        "with 2-D simplex side grids (match_2d, oracle only). non-trivial = at least one replacement that makes the grids non-matching; "
+        "distinct = distinct cases")
+TRUSTED = [
+    "modelled, not verified: scipy.sparse products / bmat / transposes / coo listing order, porepy.intersections.line_tessellation -> segments_3d "
+    "(modelled as the exact interval overlap max(0, min(b,d) - max(a,c)) of the cell parameters along the line), Grid.cell_nodes / cell_volumes, "
+    "sparse_kronecker_product (oracle checks nd=2 against numpy.kron)",
+    "modelled, not verified: the geometric identification inside match_grids_along_1d_mortar (which faces of the old and new host lie on the "
+    "fracture and on which side, node sorting, uniquify_point_set); the harness extracts the fracture faces, their side and their parameter "
+    "interval from the grids independently and the model matches them per side (faceMatch)",
+    "not proved in Lean: that faceMatch (update_primary's old-face x new-face matrices) satisfies the hypotheses of ValidUpd.primary; these "
+    "hypotheses are the ones side_history_invariant needs, they are checked only through correspondence and oracle",
+    "not proved in Lean: that initBase (index bookkeeping of _init_projections) yields matchingSide blocks per side; compared by correspondence",
+    "match_2d / shapely triangulation overlaps (2-D mortar grids): oracle only, thorough tier",
+]
+EXPLANATION = ("CORE (partial): the model covers _init_projections, _set_projections, update_mortar / update_secondary / update_primary as matrix "
+               "algebra over exact rationals and match_1d as interval overlaps. Proved for all inputs: overlap weights of two tessellations of a "
+               "segment are non-negative with row / column sums equal to the cell measures, hence averaged match matrices are row-stochastic and "
+               "integrated ones column-stochastic; row-/column-stochasticity (on the covered entities) is closed under the products the updates "
+               "perform; the stored stacked matrices are updated side by side (block-diagonal times stack = stack of products); for one side and "
+               "EVERY history of valid updates the invariant (unit row sums of averaged maps, unit column sums of integrated maps on covered "
+               "faces, support on covered faces) holds; the four mortar-to-grid maps are the transposes of the grid-to-mortar maps after every "
+               "history although update_secondary / update_primary refresh one pair only. Not proved: that update_primary's face matching "
+               "satisfies the validity hypotheses (geometry), floating point. Correspondence compares all eight matrices densely after every "
+               "step with tolerance 1e-10; the oracle checks the property (and that cell measures are mapped to cell measures) on the real objects.")
+ASSUMPTIONS = [
+    "fractures are straight; 1-D mortar grids (2-D mortar grids through match_2d are covered by the oracle only)",
+    "the two fractures of a case do not cross (update_primary raises ValueError for a host with crossing fractures: not a statement of the property)",
+    "cell sizes differ by less than 1e3 so that MortarGrid._check_mappings (row sums > 1e-4) does not reject the refinement",
+]
 
 MATS = ["primary_to_mortar_int", "primary_to_mortar_avg", "secondary_to_mortar_int", "secondary_to_mortar_avg",
         "mortar_to_primary_int", "mortar_to_primary_avg", "mortar_to_secondary_int", "mortar_to_secondary_avg"]
@@ -448,7 +492,10 @@ def _trace(case):
     if key not in _CACHE:
         if len(_CACHE) > 4000:
             _CACHE.clear()
-        _CACHE[key] = _Trace(case).run()
+        res = {}
+        tr = _Trace(case, _oracle_hook(case, res))
+        tr.oracle = res
+        _CACHE[key] = tr.run()
     return _CACHE[key]
 
 
@@ -523,6 +570,12 @@ def _check_intf(intf, side_faces, sec_vol, face_area):
     (None if the primary has no geometry).  Returns None or (check, matrix, detail)."""
     M = {m: getattr(intf, m)().toarray() for m in MATS}
     nc = intf.num_cells
+    n_prim = None if face_area is None else len(face_area)
+    n_sec = None if sec_vol is None else len(sec_vol)
+    for m, (r, c) in {"primary_to_mortar_int": (nc, n_prim), "primary_to_mortar_avg": (nc, n_prim),
+                      "secondary_to_mortar_int": (nc, n_sec), "secondary_to_mortar_avg": (nc, n_sec)}.items():
+        if M[m].shape[0] != r or (c is not None and M[m].shape[1] != c):
+            return ("shape", m, f"shape {M[m].shape}, but there are {r} mortar cells and {c} entities in the current grid")
     for a, b in PAIRS:
         if M[a].shape != M[b].T.shape or not np.array_equal(M[a], M[b].T):
             return ("transpose", a, f"{a} is not the transpose of {b}")
@@ -608,17 +661,18 @@ def _stored_duplicates(intf):
     return col.size != np.unique(col).size
 
 
-def oracle(case):
-    res = {}
+def _oracle_hook(case, res):
+    """hook for _Trace: checks the property after construction and after every step; the first failure is kept in
+    res['r'] (the run continues so that the same run also serves as impl_run)"""
     state = {"dup_before": {}}
 
     def hook(label, ctx):
+        if "r" in res:
+            return False
         op = label.split(":")[-1]
         if "intf" in ctx:  # syn / tri
-            intf = ctx["intf"]
             side_faces = case["faces"] if case["kind"] == "syn" and not case["bad"] else None
-            sec_vol = None
-            items = [(0, intf, side_faces, None, None)]
+            items = [(0, ctx["intf"], side_faces, None, None)]
         else:
             mdg = ctx["mdg"]
             tr = ctx["trace"]
@@ -630,24 +684,77 @@ def oracle(case):
                 sec = mdg.interface_to_subdomain_pair(intf)[1]
                 if mdg.interface_to_subdomain_pair(intf)[0] is not g2:
                     res["r"] = {"what": f"{label}: interface {k} is not attached to the current host grid", "key": f"mdg:{op}:pairing"}
-                    return True
+                    return False
                 items.append((k, intf, sides, sec.cell_volumes, g2.face_areas))
         for k, intf, side_faces, sec_vol, face_area in items:
-            if case["kind"] == "syn":
-                pass
             r = _check_intf(intf, side_faces, sec_vol, face_area)
             if r is not None:
                 key = f"{case['kind']}:{op}:{r[0]}:{r[1]}"
                 if op == "primary" and state["dup_before"].get(k):
                     key = "update_primary:old-face-in-several-mortar-cells"
                 res["r"] = {"what": f"{label}, interface {k}: {r[2]} ({r[0]} of {r[1]})", "key": key}
-                return True
+                return False
         state["dup_before"] = {k: _stored_duplicates(intf) for k, intf, *_ in items}
         return False
 
-    tr = _Trace(case, hook)
-    try:
-        tr.run()
-    except Exception as e:  # errors of the real code outside init are not part of the property
-        raise
-    return res.get("r")
+    return hook
+
+
+def oracle(case):
+    return _trace(case).oracle.get("r")
+
+
+# ----------------------------------------------------------------------------- bookkeeping for the evidence
+def _nonmatching_step(case):
+    return any(st["op"] in ("mortar", "secondary", "primary") for st in case.get("steps", []))
+
+
+def nontrivial(case):
+    if case["kind"] == "syn" and case.get("bad"):
+        return False
+    return _nonmatching_step(case)
+
+
+def shrink_candidates(case):
+    steps = case.get("steps", [])
+    for i in range(len(steps) - 1, -1, -1):
+        yield dict(case, steps=steps[:i] + steps[i + 1:])
+    for i, st in enumerate(steps):
+        if st["op"] == "mortar" and len(st["sides"]) > 1:
+            for s in st["sides"]:
+                yield dict(case, steps=steps[:i] + [dict(st, sides={k: v for k, v in st["sides"].items() if k != s})] + steps[i + 1:])
+        if st["op"] == "primary" and st.get("shift"):
+            yield dict(case, steps=steps[:i] + [dict(st, shift=None)] + steps[i + 1:])
+        specs = [st] if "t" in st else list(st.get("sides", {}).values()) if st["op"] == "mortar" else []
+        for sp in specs:
+            if isinstance(sp, dict) and len(sp.get("t", [])) > 2:
+                for j in range(1, len(sp["t"]) - 1):
+                    sp2 = dict(sp, t=sp["t"][:j] + sp["t"][j + 1:])
+                    if sp is st:
+                        yield dict(case, steps=steps[:i] + [sp2] + steps[i + 1:])
+                    else:
+                        yield dict(case, steps=steps[:i] + [dict(st, sides={k: (sp2 if v is sp else v) for k, v in st["sides"].items()})] + steps[i + 1:])
+    if case["kind"] == "mdg" and len(case["fracs"]) == 2:
+        for keep in (0, 1):
+            st2 = [dict(st, intf=0) for st in steps if st.get("intf", keep) == keep]
+            yield dict(case, fracs=[case["fracs"][keep]], steps=st2)
+
+
+def stats(cases, impl_outs):
+    import collections
+    kinds = collections.Counter(c["kind"] for c in cases)
+    ops = collections.Counter(f"{c['kind']}:{st['op']}" for c in cases for st in c.get("steps", []))
+    errs = sum(1 for out in impl_outs if isinstance(out, list) and any(isinstance(o, dict) and "err" in o for o in out))
+    return {
+        "kinds": dict(kinds), "steps": dict(ops),
+        "syn_one_sided": sum(1 for c in cases if c["kind"] == "syn" and c["nsides"] == 1),
+        "syn_face_duplicate_ind": sum(1 for c in cases if c["kind"] == "syn" and c["dup"]),
+        "syn_malformed": sum(1 for c in cases if c["kind"] == "syn" and c["bad"]),
+        "reversed_node_order_grids": sum(1 for c in cases for st in c.get("steps", []) for sp in ([st] + list(st.get("sides", {}).values() if isinstance(st.get("sides"), dict) else [])) if isinstance(sp, dict) and sp.get("rev")),
+        "mdg_two_fractures": sum(1 for c in cases if c["kind"] == "mdg" and len(c["fracs"]) == 2),
+        "mdg_transposed": sum(1 for c in cases if c["kind"] == "mdg" and c["axis"] == 1),
+        "mdg_primary_with_shifted_nodes": sum(1 for c in cases if c["kind"] == "mdg" for st in c["steps"] if st["op"] == "primary" and st.get("shift")),
+        "mdg_primary_after_nonmatching": sum(1 for c in cases if c["kind"] == "mdg" and any(st["op"] == "primary" for st in c["steps"][1:])),
+        "cases_ending_in_error": errs,
+        "steps_per_case": dict(collections.Counter(len(c.get("steps", [])) for c in cases)),
+    }
